@@ -18,8 +18,13 @@ namespace KamalProxy.Proxy
 inductive TState | adding | draining | healthy | unhealthy
 deriving DecidableEq, Repr
 
-inductive ProbeMode | ok | fail | hang
+inductive ProbeMode
+  | ok | fail | hang
+  | status (code : Nat)      -- the target answers the probe with this status
 deriving DecidableEq, Repr
+
+/-- `check`: a probe succeeds iff the status is 2xx -/
+def statusOk (code : Nat) : Bool := 200 ≤ code && code ≤ 299
 
 /-- what the probe loop of a target is doing -/
 inductive Loop
@@ -242,6 +247,7 @@ def probeFire (w : World) (tid : Nat) : World :=
     match (scriptOf w t.name).mode with
     | .ok => probeComplete w1 tid true
     | .fail => probeComplete w1 tid false
+    | .status code => probeComplete w1 tid (statusOk code)
     | .hang => setT w1 { t with loop := .hanging (w.now + t.hcTimeout) }
 
 def stopChecks (w : World) (tid : Nat) : World :=
